@@ -85,6 +85,9 @@ func FromV2(a types.AttributeValue) val.V {
 	case *types.AttributeValueMemberBOOL:
 		return val.Bool(x.Value)
 	case *types.AttributeValueMemberNULL:
+		if !x.Value {
+			return val.V{T: "?NULL(false)"} // not a value DynamoDB knows
+		}
 		return val.Null()
 	case *types.AttributeValueMemberL:
 		l := make([]val.V, len(x.Value))
